@@ -139,11 +139,27 @@ func (c *Cluster) metaRowsLocked(s *pb.Scan) (rows []scanRow, table string, key 
 	if string(stop) != table+"." {
 		return nil, table, nil, "unsupported-meta-scan"
 	}
-	for _, r := range c.regionsLocked(table) {
-		if r.NotInMeta {
-			continue
+	// hbase:meta orders rows by table name first: the range [table, table+".")
+	// also holds the rows of every table whose name extends `table` with bytes
+	// below '.', i.e. "table-..." (a real server returns those as well)
+	names := map[string]bool{}
+	for _, r := range c.regions {
+		if r.Table >= table && r.Table < table+"." {
+			names[r.Table] = true
 		}
-		rows = append(rows, scanRow{r.Name, c.metaCells(r)})
+	}
+	var ts []string
+	for t := range names {
+		ts = append(ts, t)
+	}
+	sort.Strings(ts)
+	for _, t := range ts {
+		for _, r := range c.regionsLocked(t) {
+			if r.NotInMeta {
+				continue
+			}
+			rows = append(rows, scanRow{r.Name, c.metaCells(r)})
+		}
 	}
 	return rows, table, nil, "all-regions"
 }
